@@ -920,6 +920,7 @@ func runC15(ctx *Ctx) {
 	// reproducing, or the record is stale), then the small scope, enumerated
 	runC15Corpus(ctx)
 	runC15Enum(ctx)
+	runC15OddNames(ctx)
 	// 1. round trips
 	n := ctx.N(1000, 40000)
 	for i := 0; i < n; i++ {
